@@ -193,6 +193,7 @@ type Exec struct {
 	entryPC     []*Term
 	mu          sync.Mutex
 	modelVals   []modelVal
+	plan        *inputPlan
 }
 
 type dryRun struct {
@@ -413,6 +414,20 @@ func (ex *Exec) Run() (err error) {
 	ex.applyTypeInvariantsAtEntry(fr)
 	ex.entryPC = append([]*Term(nil), st.pc...)
 	fr.old = st.snapshot()
+	{
+		// input plan for counterexample replay (its type facts are not added to the path condition)
+		savedPC := st.pc
+		savedHeap := map[string]*Term{}
+		for k, v := range st.heap {
+			savedHeap[k] = v
+		}
+		savedNa := st.na
+		ex.buildPlan(fr, args)
+		st.pc = savedPC
+		st.heap = savedHeap
+		st.na = savedNa
+		fr.old = st.snapshot()
+	}
 	ex.work = []*State{st}
 	for len(ex.work) > 0 {
 		s := ex.work[len(ex.work)-1]
